@@ -35,13 +35,15 @@ theorem settings_readers_are_the_modelled_ones :
       [("failfast", ["expectedType", "visitEnumOperation", "visitJSONArray", "visitJSONNull", "visitJSONNumber", "visitJSONObject",
                      "visitJSONString", "visitNotOperation", "visitXOFOperations"]),
        ("multiError", ["visitJSONArray", "visitJSONNumber", "visitJSONObject", "visitJSONString"]),
-       ("asreq", ["visitJSONObject", "visitXOFOperations"]), ("asrep", ["visitJSONObject", "visitXOFOperations"]),
+       -- visitNotOperation: the deep copy of the value the `not` child validates (repair of F-C12-1)
+       ("asreq", ["visitJSONObject", "visitNotOperation", "visitXOFOperations"]),
+       ("asrep", ["visitJSONObject", "visitNotOperation", "visitXOFOperations"]),
        ("formatValidationEnabled", []),
        ("patternValidationDisabled", ["visitJSONString"]),
        ("readOnlyValidationDisabled", ["visitJSONObject"]), ("writeOnlyValidationDisabled", ["visitJSONObject"]),
        ("regexCompiler", ["visitJSONString"]), ("onceSettingDefaults", ["visitJSONObject"]), ("defaultsSet", ["visitJSONObject"]),
-       -- 6a3f133: > 0 while a oneOf/anyOf candidate runs on its private copy; only gates the DefaultsSet CALLBACK (`callbackFires`)
-       ("trial", ["visitJSONObject", "visitXOFOperations"]),
+       -- 6a3f133: > 0 while a oneOf/anyOf candidate or a `not` child runs on its private copy; only gates the DefaultsSet CALLBACK (`callbackFires`)
+       ("trial", ["visitJSONObject", "visitNotOperation", "visitXOFOperations"]),
        ("customizeMessageError", ["expectedType", "visitEnumOperation", "visitJSON", "visitJSONArray", "visitJSONNull", "visitJSONNumber",
                                   "visitJSONObject", "visitJSONString", "visitNotOperation", "visitXOFOperations"])] := by decide
 
